@@ -22,3 +22,11 @@ Definition src_variant : option variant :=
   if src_new_takes_lock && src_reset && src_lock_dropped_last && src_lifo then Some Good else None.
 Lemma src_variant_good : src_variant = Some Good.
 Proof. reflexivity. Qed.
+
+(* process-wide state as found in the source: outside macros.rs the only `static` is the guard, and the only statics the macros
+   declare are the per-call-site counters `static FAKE_COUNTER: AtomicUsize` (no once-cells, thread-locals or block-level consts):
+   exactly the state the lifetime machine has (o_* of the OS machine is the environment's, not the library's) *)
+Definition src_only_guard_static : bool := PROCESS_WIDE_STATE_IS_THE_GUARD_ONLY =? 1.
+Definition src_macro_statics_are_counters : bool := MACRO_STATICS_ARE_THE_CALL_COUNTERS =? 1.
+Lemma src_state_shape : src_only_guard_static && src_macro_statics_are_counters = true.
+Proof. reflexivity. Qed.
